@@ -127,7 +127,7 @@ def parse_uvl(path):
     ctcs = NIL
     if tree.constraints():
         ctcs = [cst(line.constraint()) for line in tree.constraints().constraintLine()]
-    return tag("udoc", root, ctcs)
+    return fmt.assert_no_empty_group(tag("udoc", root, ctcs), path)
 
 
 # ------------------------------------------------------------------------------ the UVL fragment
